@@ -825,7 +825,7 @@ class Api:
             L.append("  lifetimes := [" + ", ".join(f'"{l}"' for l in s["lifetimes"]) + "]")
             L.append("  params := [" + ", ".join(f'"{p}"' for p in s["params"]) + "]")
             L.append("  fields := [")
-            L.append(",\n".join(f'    ("{fn}", {lt})  -- {txt}' if False else f'    ("{fn}", {lt})' for fn, lt, txt in s["fields"]))
+            L.append(",\n".join(f'    ("{fn}", {lt})' for fn, lt, txt in s["fields"]))
             L.append("  ]")
             L.append("  fieldLts := [" + ", ".join('("%s", [%s])' % (fn, ", ".join(f'"{l}"' for l in lts)) for fn, lts in s["fieldLts"]) + "]")
             L.append("  autoImpls := [" + ", ".join(
